@@ -34,7 +34,9 @@ type item struct {
 
 // unit is one top-level thing the peer sends.
 //
-//	H1/H0  stream header, acceptable / not acceptable
+//	H1/H0  stream header, acceptable / not acceptable (its addresses are the expected ones)
+//	A…     an otherwise acceptable stream header with addresses of the peer's choosing:
+//	       A<from> (no 'to') or A<from>.<loc>.<dom>.<res>; see hdrFromKinds, addr
 //	L…     features list, items id.req.ok joined by '+'
 //	P F    <proceed/> <failure/> (TLS namespace)
 //	E      <stream:error/>
@@ -48,12 +50,104 @@ type unit struct {
 	items []item
 	// variant selects among equivalent concrete spellings (never seen by the model)
 	variant int
+	// kind 'A': the 'from' attribute (index into hdrFromKinds) and the 'to' attribute
+	from  int
+	hasTo bool
+	to    addr
+}
+
+// addr is an address of the universe the peer picks the 'to' of its stream headers from,
+// spelled relative to the scenario: loc 0 no localpart, 1 the localpart of the session's own
+// address, 2 another localpart of the same length; dom: index into domains (0-3 have the same
+// length, 4 is longer); res 0 no resourcepart, 1 "r".  Equal codes = equal addresses.
+type addr struct{ loc, dom, res int }
+
+func (a addr) code() string { return fmt.Sprintf("%d.%d.%d", a.loc, a.dom, a.res) }
+
+// hdrFromKinds: the 'from' of a header the peer sends: absent, the remote address the session
+// was created with, another domain of the same shape, another domain of another shape (the
+// model only knows absent / same / differs).
+var hdrFromKinds = []string{"absent", "remote address", "other domain, same length", "other domain"}
+
+func (sc *scenario) userName() string {
+	if sc.user == "" {
+		return "user"
+	}
+	return sc.user
+}
+
+// altUser: another localpart with the length of the session's own
+func (sc *scenario) altUser() string {
+	u := []byte(sc.userName())
+	if u[len(u)-1] == 'x' {
+		u[len(u)-1] = 'y'
+	} else {
+		u[len(u)-1] = 'x'
+	}
+	return string(u)
+}
+
+func (sc *scenario) addrStr(a addr) string {
+	s := domains[a.dom%len(domains)]
+	switch a.loc {
+	case 1:
+		s = sc.userName() + "@" + s
+	case 2:
+		s = sc.altUser() + "@" + s
+	}
+	if a.res != 0 {
+		s += "/r"
+	}
+	return s
+}
+
+// ownAddr: the session's own address in the codes of addr
+func (sc *scenario) ownAddr() addr {
+	if sc.state0&uint8(xmpp.S2S) != 0 {
+		return addr{0, sc.domain, 0}
+	}
+	return addr{1, sc.domain, 0}
+}
+
+// addrCode: the code of a concrete address, "?<hex>" when it is not in the universe
+func (sc *scenario) addrCode(j jid.JID) string {
+	a := addr{dom: -1}
+	switch j.Localpart() {
+	case "":
+	case sc.userName():
+		a.loc = 1
+	case sc.altUser():
+		a.loc = 2
+	default:
+		return "?" + common.HexS(j.String())
+	}
+	for k, d := range domains {
+		if d == j.Domainpart() {
+			a.dom = k
+		}
+	}
+	switch j.Resourcepart() {
+	case "":
+	case "r":
+		a.res = 1
+	default:
+		a.dom = -1
+	}
+	if a.dom < 0 {
+		return "?" + common.HexS(j.String())
+	}
+	return a.code()
 }
 
 func (u unit) String() string {
 	switch u.kind {
 	case 'H':
 		return "H" + common.B(u.ok)
+	case 'A':
+		if !u.hasTo {
+			return fmt.Sprintf("A%d", u.from)
+		}
+		return fmt.Sprintf("A%d.%s", u.from, u.to.code())
 	case 'L':
 		var s []string
 		for _, it := range u.items {
@@ -87,13 +181,25 @@ const (
 	idBind = 8
 )
 
-func builtin() (saslF, bindF xmpp.StreamFeature) {
-	return xmpp.SASL("", "secret", sasl.Plain), xmpp.BindResource()
+// mechSets: the mechanism configurations of the built-in authentication feature that scenarios
+// use (index = scenario.mech); mechUniverse: the mechanisms the facts enumerate all subsets of.
+var mechUniverse = []sasl.Mechanism{sasl.Plain, sasl.ScramSha1, sasl.ScramSha1Plus, sasl.ScramSha256, sasl.ScramSha256Plus}
+
+var mechSets = [][]sasl.Mechanism{
+	{sasl.Plain},
+	{sasl.ScramSha256, sasl.ScramSha1},
+	{sasl.ScramSha1},
+	{sasl.ScramSha256Plus, sasl.ScramSha256},
+	{sasl.ScramSha1, sasl.Plain},
+}
+
+func builtin(mech int) (saslF, bindF xmpp.StreamFeature) {
+	return xmpp.SASL("", "secret", mechSets[mech%len(mechSets)]...), xmpp.BindResource()
 }
 
 // builtinOthers describes the two real features with the masks they really have.
-func builtinOthers() []other {
-	sf, bf := builtin()
+func builtinOthers(mech int) []other {
+	sf, bf := builtin(mech)
 	return []other{
 		{id: idSASL, nec: uint8(sf.Necessary), proh: uint8(sf.Prohibited), negotiable: sf.Negotiate != nil},
 		{id: idBind, nec: uint8(bf.Necessary), proh: uint8(bf.Prohibited), negotiable: bf.Negotiate != nil},
@@ -106,6 +212,7 @@ type scenario struct {
 	ck       int    // kind of connection the session is created on (see connKinds)
 	explicit bool
 	state0   uint8
+	mech     int // which mechanisms the real SASL feature is configured with (index into mechSets)
 	domain   int // index of the domainpart of the session's OWN address (origin)
 	remote   int // index of the domainpart of the REMOTE address (location); may differ
 	others   []other
@@ -163,6 +270,24 @@ func parseUnit(s string) (unit, error) {
 		if s == "H1" || s == "H0" {
 			return unit{kind: 'H', ok: s == "H1"}, nil
 		}
+	case 'A':
+		p := strings.Split(s[1:], ".")
+		if len(p) != 1 && len(p) != 4 {
+			return unit{}, fmt.Errorf("bad header %q", s)
+		}
+		var n [4]int
+		for i := range p {
+			v, err := strconv.Atoi(p[i])
+			if err != nil || v < 0 {
+				return unit{}, fmt.Errorf("bad header %q", s)
+			}
+			n[i] = v
+		}
+		u := unit{kind: 'A', from: n[0] % len(hdrFromKinds)}
+		if len(p) == 4 {
+			u.hasTo, u.to = true, addr{n[1] % 3, n[2] % len(domains), n[3] % 2}
+		}
+		return u, nil
 	case 'L':
 		u := unit{kind: 'L'}
 		if s == "L" {
@@ -272,11 +397,7 @@ func (sc *scenario) originStr() string {
 	if sc.state0&uint8(xmpp.S2S) != 0 {
 		return domains[sc.domain]
 	}
-	u := sc.user
-	if u == "" {
-		u = "user"
-	}
-	return u + "@" + domains[sc.domain]
+	return sc.userName() + "@" + domains[sc.domain]
 }
 func (sc *scenario) origin() jid.JID   { return jid.MustParse(sc.originStr()) }
 func (sc *scenario) location() jid.JID { return jid.MustParse(domains[sc.remote]) }
@@ -311,6 +432,22 @@ func (u unit) bytes(sc *scenario) []byte {
 		default: // wrong default namespace
 			return []byte(fmt.Sprintf(`<stream:stream xmlns='jabber:nope' xmlns:stream='http://etherx.jabber.org/streams' version='1.0' id='sid' from='%s'>`, dom))
 		}
+	case 'A':
+		var b strings.Builder
+		fmt.Fprintf(&b, `<stream:stream xmlns='%s' xmlns:stream='http://etherx.jabber.org/streams' version='1.0' id='sid'`, ns)
+		switch u.from {
+		case 1:
+			fmt.Fprintf(&b, ` from='%s'`, dom)
+		case 2:
+			fmt.Fprintf(&b, ` from='%s'`, domains[(sc.remote+1)%4])
+		case 3:
+			b.WriteString(` from='evil.example'`)
+		}
+		if u.hasTo {
+			fmt.Fprintf(&b, ` to='%s'`, sc.addrStr(u.to))
+		}
+		b.WriteString(">")
+		return []byte(b.String())
 	case 'L':
 		var b strings.Builder
 		b.WriteString("<stream:features>")
@@ -323,7 +460,11 @@ func (u unit) bytes(sc *scenario) []byte {
 			}
 			switch {
 			case it.id == idSASL && configured:
-				b.WriteString("<mechanisms xmlns='urn:ietf:params:xml:ns:xmpp-sasl'><mechanism>PLAIN</mechanism></mechanisms>")
+				b.WriteString("<mechanisms xmlns='urn:ietf:params:xml:ns:xmpp-sasl'>")
+				for _, m := range mechSets[sc.mech%len(mechSets)] {
+					b.WriteString("<mechanism>" + m.Name + "</mechanism>")
+				}
+				b.WriteString("</mechanisms>")
 			case it.id == idBind && configured:
 				b.WriteString("<bind xmlns='urn:ietf:params:xml:ns:xmpp-bind'/>")
 			case it.id == 0:
@@ -377,6 +518,9 @@ type pick struct {
 
 type result struct {
 	advIDs   []int
+	local    string // T<code>: what LocalAddr() returns after the call (T- : no session value)
+	remoteCh string // "" or what RemoteAddr() returns when it is not the address the session was created with
+	callerCh string // "" or how the caller's own JID values (the arguments of NewSession) were changed
 	adv      string   // A<ids>: what Session.Feature reports as advertised after the call
 	hello    string   // N<name> when a ClientHello left during NewSession, else ""
 	clearEv  []string // what the client wrote in clear text, classified
@@ -689,7 +833,7 @@ func (c *ctx) exec1(sc scenario, base *xmpp.StreamFeature, shared *sharedNeg) (r
 		o := o
 		if o.id == idSASL || o.id == idBind {
 			// the real built-in feature; its negotiation is recorded
-			sf, bf := builtin()
+			sf, bf := builtin(sc.mech)
 			f := sf
 			if o.id == idBind {
 				f = bf
@@ -782,6 +926,8 @@ func (c *ctx) exec1(sc scenario, base *xmpp.StreamFeature, shared *sharedNeg) (r
 
 	var s *xmpp.Session
 	var err error
+	// the caller's address values: they are the caller's, whatever the library does with copies
+	argOrigin, argLocation := sc.origin(), sc.location()
 	cctx, cancel := context.WithTimeout(context.Background(), 20*time.Second)
 	defer cancel()
 	ok := common.WithTimeout(10*time.Second, func() {
@@ -863,6 +1009,23 @@ func (c *ctx) exec1(sc scenario, base *xmpp.StreamFeature, shared *sharedNeg) (r
 	res.prot = protBytes
 	res.protEv = classify(protBytes)
 	res.teeIn, res.teeOut = teeIn.Bytes(), teeOut.Bytes()
+	// the addresses afterwards: the session's, and the values the caller passed in
+	res.local = "T-"
+	if ok && res.panicked == "" && s != nil {
+		common.Recover(func() {
+			res.local = "T" + sc.addrCode(s.LocalAddr())
+			if ra := s.RemoteAddr(); ra.String() != domains[sc.remote] {
+				res.remoteCh = ra.String()
+			}
+		})
+	}
+	if ok {
+		if got := argOrigin.String(); got != sc.originStr() {
+			res.callerCh = fmt.Sprintf("the origin value passed to NewSession was %s and is now %s", sc.originStr(), got)
+		} else if got := argLocation.String(); got != domains[sc.remote] {
+			res.callerCh = fmt.Sprintf("the location value passed to NewSession was %s and is now %s", domains[sc.remote], got)
+		}
+	}
 	// what Session.Feature reports as advertised, for every namespace that occurs in a list
 	// of the script
 	res.adv = "A-"
